@@ -493,7 +493,12 @@ class IGDomain(Domain):
         def g3():
             spec = [("prod", "S", "A", "f"), ("end", "A", "a")]
             return {"x": self._build(spec, 0), "re": Regex("a"), "d": [], "spec": spec, "optim": 0}
-        return [("non-empty through push/pop", g1), ("empty: wrong index", g2), ("optim 0, no consumption rule", g3)]
+        def g4():
+            # replacing S -> A[f] by S -> A[g] (same rule counts) makes this one empty
+            spec = [("prod", "S", "A", "f"), ("cons", "f", "A", "B"), ("end", "B", "a")]
+            return {"x": self._build(spec), "re": Regex("a"), "d": [], "spec": spec}
+        return [("non-empty through push/pop", g1), ("empty: wrong index", g2), ("optim 0, no consumption rule", g3),
+                ("non-empty through one push/pop, no other way", g4)]
 
     @staticmethod
     def _add(w, l, r, p):
